@@ -104,6 +104,35 @@ type Node struct {
 	Name string  `json:"name,omitempty"`
 	Op   *Op     `json:"op,omitempty"`
 	Kids []*Node `json:"kids,omitempty"`
+	// Wrap > 0 (anon only): the closure annotates a failure of its children with its own error
+	// (return &wrapErr{id, err}) like a hand-written option would with fmt.Errorf("...: %w", err)
+	Wrap int `json:"wrap,omitempty"`
+}
+
+// wrapErr is the annotation a hand-written grouping option puts around its children's error.
+type wrapErr struct {
+	id    int
+	cause error
+}
+
+func (w *wrapErr) Error() string { return fmt.Sprintf("optional feature %d: %v", w.id, w.cause) }
+func (w *wrapErr) Unwrap() error { return w.cause }
+
+// walkErr visits err and everything reachable from it through Unwrap() error / Unwrap() []error,
+// in the order errors.Is / errors.As examine the tree.
+func walkErr(err error, visit func(error)) {
+	if err == nil {
+		return
+	}
+	visit(err)
+	switch x := err.(type) {
+	case interface{ Unwrap() error }:
+		walkErr(x.Unwrap(), visit)
+	case interface{ Unwrap() []error }:
+		for _, e := range x.Unwrap() {
+			walkErr(e, visit)
+		}
+	}
 }
 
 // keyValue is the key argument of a removeKeyed op.
@@ -192,6 +221,9 @@ func (n *Node) String() string {
 	}
 	if n.Kind == "named" {
 		return fmt.Sprintf("NewModule(%q: %s)", n.Name, strings.Join(ps, ", "))
+	}
+	if n.Wrap > 0 {
+		return fmt.Sprintf("group-annotating-errors#%d{%s}", n.Wrap, strings.Join(ps, ", "))
 	}
 	return "group{" + strings.Join(ps, ", ") + "}"
 }
@@ -311,9 +343,18 @@ func (e *env) leafOption(o *Op) godi.ModuleOption {
 func failingEntry(godi.Collection) error { return errLeaf }
 
 // anonGroup is a user-written ModuleOption that groups entries without naming them.
-type anonGroup struct{ kids []godi.ModuleOption }
+type anonGroup struct {
+	kids []godi.ModuleOption
+	wrap int
+}
 
-func (g *anonGroup) apply(c godi.Collection) error { return c.AddModules(g.kids...) }
+func (g *anonGroup) apply(c godi.Collection) error {
+	err := c.AddModules(g.kids...)
+	if err != nil && g.wrap > 0 {
+		return &wrapErr{g.wrap, err}
+	}
+	return err
+}
 
 func (e *env) moduleOptions(ns []*Node) []godi.ModuleOption {
 	out := make([]godi.ModuleOption, 0, len(ns))
@@ -332,7 +373,7 @@ func (e *env) moduleOption(n *Node) godi.ModuleOption {
 	case "named":
 		return godi.NewModule(n.Name, e.moduleOptions(n.Kids)...)
 	case "anon":
-		g := &anonGroup{kids: e.moduleOptions(n.Kids)}
+		g := &anonGroup{kids: e.moduleOptions(n.Kids), wrap: n.Wrap}
 		return g.apply
 	}
 	panic("regx: moduleOption " + n.Kind)
@@ -342,19 +383,28 @@ func (e *env) moduleOption(n *Node) godi.ModuleOption {
 type flatLeaf struct {
 	Op    *Op
 	Names []string
+	Wraps []int // ids of the enclosing error-annotating closures
 }
 
 // flatten lists the leaves left to right (nil entries vanish).
 func flatten(ns []*Node, names []string, out []flatLeaf) []flatLeaf {
+	return flattenW(ns, names, nil, out)
+}
+
+func flattenW(ns []*Node, names []string, wraps []int, out []flatLeaf) []flatLeaf {
 	for _, n := range ns {
 		switch n.Kind {
 		case "nil":
 		case "leaf":
-			out = append(out, flatLeaf{Op: n.Op, Names: append([]string(nil), names...)})
+			out = append(out, flatLeaf{Op: n.Op, Names: append([]string(nil), names...), Wraps: append([]int(nil), wraps...)})
 		case "named":
-			out = flatten(n.Kids, append(names[:len(names):len(names)], n.Name), out)
+			out = flattenW(n.Kids, append(names[:len(names):len(names)], n.Name), wraps, out)
 		case "anon":
-			out = flatten(n.Kids, names, out)
+			w := wraps
+			if n.Wrap > 0 {
+				w = append(wraps[:len(wraps):len(wraps)], n.Wrap)
+			}
+			out = flattenW(n.Kids, names, w, out)
 		}
 	}
 	return out
